@@ -99,14 +99,44 @@ def _drive_files(args):
     return out
 
 
+def _ipm_trace(tid, data, enc, blocked, bc, wd, with_tools, what='mutated'):
+    from cardutil.cli import mci_ipm_to_csv, mideu
+    import contextlib
+    from . import ipmc
+    events = [ipmc.iev(1, 'given', b=data)] + ipmc.read_all_events(1, data, enc, bc, blocked)
+    if with_tools:
+        path = os.path.join(wd, 'tool-%d-%d.ipm' % (os.getpid(), tid))
+        open(path, 'wb').write(data)
+        for tool in ('mci_ipm_to_csv', 'mideu'):
+            e = ipmc.iev(1, 'tool', out='returned')
+            try:
+                with drv.Env('tool', tid, tool, every=3), drv.Watchdog(8.0), contextlib.redirect_stdout(io.StringIO()):
+                    if tool == 'mci_ipm_to_csv':
+                        mci_ipm_to_csv.cli_run(in_filename=path, out_filename=path + '.csv', in_encoding=enc,
+                                               no1014blocking=not blocked)
+                    else:
+                        mideu.cli_run(func=mideu.extract, input=path, sourceformat='ebcdic' if enc == 'cp500' else 'ascii',
+                                      no1014blocking=not blocked, csvoutputfile=path + '.csv')
+            except BaseException as ex:  # noqa
+                o = drv.exc_outcome(ex)
+                e['out'] = 'hang' if o['kind'] == 'hang' else 'exc'
+                e['_observed'] = dict(o, tool=tool)
+            events.append(e)
+        for p in (path, path + '.csv'):
+            if os.path.exists(p):
+                os.unlink(p)
+    for e in events:
+        e.pop('_exc', None)
+    return {'tid': tid, 'loc': False, 'strict': True, 'cols': [], 'insts': [{'blk': blocked}], 'events': events, '_enc': enc,
+            '_desc': '%s %s IPM file of %d bytes (%s) through IpmReader%s' % (enc, '1014' if blocked else 'vbs', len(data), what,
+                                                                             ' and the CSV tools' if with_tools else '')}
+
+
 def _drive_ipm(args):
     """IpmReader and the tools over mutated files, recorded as Trace_Ipm traces: TLC judges every reader step against
     the reading of the record (C07 owns the outcome-class clauses) and every tool run (must return)."""
     seed, lo, hi, wd = args
     from cardutil import mciipm
-    from cardutil.cli import mci_ipm_to_csv, mideu
-    import contextlib
-    from . import ipmc
     out = []
     bc = PKG['bit_config']
     for tid in range(lo, hi):
@@ -122,34 +152,52 @@ def _drive_ipm(args):
         for _ in range(r.randrange(1, 3)):
             q = r.randrange(len(x))
             x[q] = r.choice((0x2d, 0x20, 0xff, 0x00, 0x60, 0x40, r.randrange(256)))
-        data = bytes(x)
-        events = [ipmc.iev(1, 'given', b=data)] + ipmc.read_all_events(1, data, enc, bc, blocked)
-        if tid % 6 == 0:
-            path = os.path.join(wd, 'tool-%d-%d.ipm' % (os.getpid(), tid))
-            open(path, 'wb').write(data)
-            for tool in ('mci_ipm_to_csv', 'mideu'):
-                e = ipmc.iev(1, 'tool', out='returned')
-                try:
-                    with drv.Watchdog(8.0), contextlib.redirect_stdout(io.StringIO()):
-                        if tool == 'mci_ipm_to_csv':
-                            mci_ipm_to_csv.cli_run(in_filename=path, out_filename=path + '.csv', in_encoding=enc,
-                                                   no1014blocking=not blocked)
-                        else:
-                            mideu.cli_run(func=mideu.extract, input=path, sourceformat='ebcdic' if enc == 'cp500' else 'ascii',
-                                          no1014blocking=not blocked, csvoutputfile=path + '.csv')
-                except BaseException as ex:  # noqa
-                    o = drv.exc_outcome(ex)
-                    e['out'] = 'hang' if o['kind'] == 'hang' else 'exc'
-                    e['_observed'] = dict(o, tool=tool)
-                events.append(e)
-            for p in (path, path + '.csv'):
-                if os.path.exists(p):
-                    os.unlink(p)
-        for e in events:
-            e.pop('_exc', None)
-        out.append({'tid': tid, 'loc': False, 'strict': True, 'cols': [], 'insts': [{'blk': blocked}], 'events': events, '_enc': enc,
-                    '_desc': '%s %s IPM file of %d bytes (mutated) through IpmReader%s' % (enc, '1014' if blocked else 'vbs', len(data),
-                                                                                      ' and the CSV tools' if tid % 6 == 0 else '')})
+        out.append(_ipm_trace(tid, bytes(x), enc, blocked, bc, wd, tid % 6 == 0))
+    return out
+
+
+def odd_numerals(enc):
+    """byte values that are numerals of some kind under the code page without being one of the ten digits (superscripts,
+    fractions): input generation for the places where the library looks at "is this numeric" """
+    out = []
+    for b in range(256):
+        try:
+            c = bytes([b]).decode(enc)
+        except UnicodeDecodeError:
+            continue
+        if (c.isnumeric() or c.isdigit()) and c not in '0123456789':
+            out.append(b)
+    return out
+
+
+def _drive_ipm_head(args):
+    """the first record's message type (what the tools look at before they start reading): every position x every odd
+    numeral of the code page, a sign, a blank; through IpmReader and both tools"""
+    seed, enc, blocked, wd = args
+    from cardutil import mciipm
+    bc = PKG['bit_config']
+    out = []
+    r = drv.rng(seed, 'c07head', enc, blocked)
+    f = io.BytesIO()
+    w = mciipm.IpmWriter(f, encoding=enc, blocked=blocked)
+    for i in range(2):
+        w.write(isoc.gen_message(r, bc, isoc.SAFE, maxbits=5))
+    w.close()
+    base = f.getvalue()
+    vals = odd_numerals(enc) + ['-'.encode(enc)[0], ' '.encode(enc)[0], 0x00]
+    tid = 0
+    for pos in range(4, 8):
+        for v in vals:
+            x = bytearray(base)
+            x[pos] = v
+            out.append(_ipm_trace(tid, bytes(x), enc, blocked, bc, wd, True, 'first message type byte %d := x%02X' % (pos - 4, v)))
+            tid += 1
+    # all four positions odd numerals at once
+    for k, v in enumerate(vals[:6]):
+        x = bytearray(base)
+        x[4:8] = bytes([v, vals[(k + 1) % len(vals)], v, v])
+        out.append(_ipm_trace(tid, bytes(x), enc, blocked, bc, wd, True, 'first message type made of odd numerals'))
+        tid += 1
     return out
 
 
@@ -163,6 +211,7 @@ def file_level(rep, wd, tier, seed):
         return key + (':' + o.get('cls', '') if payload.get('event_out') in ('exc', 'hang') else '')
     vbsc.validate(rep, wd, batches, 'vbsfile', keymap=keymap)
     outs = vbsc.parallel(_drive_ipm, [(seed, c[0], c[-1] + 1, wd) for c in chunks])
+    outs += vbsc.parallel(_drive_ipm_head, [(seed, enc, blk, wd) for enc in ('latin_1', 'cp500') for blk in (False, True)])
     from . import ipmc
     groups = {}
     for o in outs:
